@@ -1,6 +1,7 @@
 """C16 — every machine a front-end emits is well formed."""
 import glob
 import json
+import re
 import os
 import random
 import shutil
@@ -95,6 +96,9 @@ def run(res, a):
             bmq = c07.gen_bmq(rnd)
             jobs.append(lambda k=k, b=bmq, f=c07.flavor_for(rnd, bmq): qsim(k, b, f))
 
+        said = {}
+        rejected = []
+
         def bondgo(name, src, rsize, mpm):
             d = tempfile.mkdtemp(dir=work)
             open(os.path.join(d, "p.go"), "w").write(src)
@@ -102,6 +106,15 @@ def run(res, a):
             args = [c07.tool("bondgo"), "-input-file", "p.go", "-register-size", str(rsize), "-save-bondmachine", "bm.json", "-mpm"]
             rc, out = c07.run_tool(args, d, 4)
             js = c07.read(os.path.join(d, "bm.json"))
+            if not js and mpm and "error processing chw" in out:
+                # goroutines with arguments: the compiler's own assembly is refused (C12 known finding c12_goroutine_arguments_rejected);
+                # a rejected source is not a machine, so there is nothing for this property to say
+                rejected.append(name)
+                return (name, "", "rejected")
+            if js and rc == 0:
+                m = re.search(r"[^\n]*(error processing|Unknown [a-z ]*name)[^\n]*", out)
+                if m:
+                    said[name] = m.group(0).strip()
             return (name, js.decode() if js else None, out[-300:] if not js else "")
         for k in range(4 if a.tier == "quick" else 40):
             nouts, stmts = c12.gen_prog(rnd)
@@ -123,6 +136,8 @@ def run(res, a):
     viol = []
     got = [(n, js) for n, js, err in machines if js]
     for n, js, err in machines:
+        if err == "rejected":
+            continue
         res.count_case({"origin": n}, nontrivial=bool(js))
         if not js:
             viol.append(("front-end produced no machine for %s: %s" % (n, err), {"origin": n}))
@@ -132,9 +147,23 @@ def run(res, a):
         if d.get("err"):
             viol.append(("the emitted machine %s cannot be loaded: %s" % (n, d["err"]), {"origin": n}))
             continue
+        # what any accepted source means: a program at the reset address of every processor, every machine output driven, and no
+        # error swallowed on the way
+        if n in said:
+            viol.append(("%s reports '%s' and still exits 0 and writes a machine (a source that cannot be fitted must be rejected)" % (n, said[n]),
+                         {"origin": n}))
+            continue
+        empty = [k for k, dm in enumerate(d["doms"]) if not (dm.get("Rom") or []) and k in [p for p in (d["topo"].get("procs") or [])]]
+        if empty:
+            viol.append(("machine from %s: the processor domain %d has an empty ROM (no word at the reset address)" % (n, empty[0]), {"origin": n}))
+            continue
+        undriven = [e3[1] for e3, l in zip(d["topo"].get("iin") or [], d["topo"].get("links") or []) if e3[0] == 1 and l < 0]
+        if undriven:
+            viol.append(("machine from %s: machine output o%d is not driven by anything" % (n, undriven[0]), {"origin": n}))
+            continue
         if n in expected:
             e = expected[n]
-            got_bonds = sorted(b[1] for b in d["topo"]["bonds"])
+            got_bonds = sorted(b[1] for b in (d["topo"].get("bonds") or []))
             if (d["topo"]["inputs"], d["topo"]["outputs"]) != (e["bm_in"], e["bm_out"]) or got_bonds != e["bonds"]:
                 viol.append(("machine from %s has %d inputs, %d outputs and bonds %s; its source declares %d inputs, %d outputs and connections %s"
                              % (n, d["topo"]["inputs"], d["topo"]["outputs"], got_bonds, e["bm_in"], e["bm_out"], e["bonds"]),
